@@ -229,16 +229,17 @@ package analysis
 //@   props C11
 //@   requires cl != nil
 //@   requires forall N *types.Named :: has(unions, N) && is(accu[N], *Union) ==> as(accu[N], *Union).name == N
+//@   requires forall N *types.Named :: has(unions, N) ==> allocated(unions[N])
 //@   modifies cl.Implements
 //@   ghostset implementsSet cl
 //@   -- exactly the analysed unions that list this struct as a member ... (the union's own name is the witness)
 //@   ensures forall k int :: 0 <= k && k < len(cl.Implements) ==> cl.Implements[k] != nil && has(unions, cl.Implements[k].name) && analysed(accu, cl.Implements[k].name) && cl.Implements[k] == as(accu[cl.Implements[k].name], *Union) && lists(unions, cl.Implements[k].name, cl.Name)
-//@   -- (completeness - every analysed union listing the struct is reported - is NOT proved here: the existential goal is out of the
-//@   --  solvers' reach; it is exercised by the bounded harness TestGovcHarness_Unions only)
+//@   ensures forall N *types.Named :: has(unions, N) && analysed(accu, N) && lists(unions, N, cl.Name) ==> (exists k int :: 0 <= k && k < len(cl.Implements) && cl.Implements[k] == as(accu[N], *Union))
 //@   -- ... each once, in name order
 //@   ensures forall k1, k2 int :: 0 <= k1 && k1 < k2 && k2 < len(cl.Implements) ==> cl.Implements[k1].name.String() < cl.Implements[k2].name.String()
 //@   loop unions.1 visited vis
 //@   loop unions.1 invariant forall k int :: 0 <= k && k < len(out) ==> out[k] != nil && vis[out[k].name] && has(unions, out[k].name) && analysed(accu, out[k].name) && out[k] == as(accu[out[k].name], *Union) && lists(unions, out[k].name, cl.Name)
+//@   loop unions.1 invariant forall N *types.Named :: vis[N] && analysed(accu, N) && lists(unions, N, cl.Name) ==> (exists k int :: 0 <= k && k < len(out) && out[k] == as(accu[N], *Union))
 //@   loop unions.1 invariant forall k1, k2 int :: 0 <= k1 && k1 < k2 && k2 < len(out) ==> out[k1] != out[k2]
 //@   loop unions.1 invariant isnil(out) || (fresh(out) && allocated(out))
 //@   loop v.1 index j
@@ -313,7 +314,7 @@ package analysis
 //@ func fetchEnumsAndUnions
 //@   trusted
 //@   ensures forall N *types.Named :: has(result1, N) ==> result1[N] != nil
-//@   ensures forall N *types.Named :: has(result2, N) ==> is(N, *types.Named)
+//@   ensures forall N *types.Named :: has(result2, N) ==> is(N, *types.Named) && allocated(result2[N])
 
 // every struct node of the table gets its Implements list from setImplements (whose contract says what it holds)
 //@ func (*Analysis).populateTypes
